@@ -29,6 +29,17 @@ CHECKS = ["every analysed event contributes exactly one start and one end node c
 
 
 def gen_cases(seed, tier, n):
+    """C08's own cases: the shared ones plus a thread nested 1100 levels deep"""
+    out = gen_cases_shared(seed, tier, n)
+    for i in range(len(out)):
+        if i % 150 == 9:
+            c = tracegen.gen_deep_case(seed, i)
+            c["params"] = {"pseed": out[i]["params"]["pseed"], "zw": False}
+            out[i] = c
+    return out
+
+
+def gen_cases_shared(seed, tier, n):
     out = []
     profs = ["cp", "cp_tiny", "cp"]
     for i in range(n):
@@ -44,6 +55,14 @@ def gen_cases(seed, tier, n):
             c = tracegen.gen_case(seed, i, tracegen.PROFILES[profs[i % len(profs)]])
         rng = random.Random(seed * 7919 + i)
         c["params"] = {"pseed": rng.randint(0, 10 ** 9), "zw": rng.random() < 0.3}
+        if i % 6 == 1:
+            # the profiler-step annotations are written to the file in reverse time order (a window given as an instance RANGE is the hull
+            # of the selected rows, whatever their order)
+            for rk in c["ranks"].values():
+                pos = [k for k, e in enumerate(rk["events"]) if str(e.get("name", "")).startswith("ProfilerStep#") and "dur" in e and k > 0]
+                evs = [rk["events"][k] for k in pos]
+                for k, e in zip(pos, reversed(evs)):
+                    rk["events"][k] = e
         if i % 8 == 6:
             fw.set_quarter_us(c)           # quarter-microsecond resolution (framework.resolution): times and weights are compared after scaling by 4
         out.append(c)
@@ -217,6 +236,9 @@ def nontrivial(case, impl):
 
 
 def classify(case, impl, model, disc):
+    # known finding: the call-stack traversal of the graph builder is recursive; a thread nested about 1000 levels deep exceeds Python's limit
+    if case.get("deep", 0) >= 990 and "error" in impl and impl["error"].startswith("RecursionError"):
+        return "C08-recursion-limit-on-deep-nesting"
     # known finding: a window whose graph has only zero-weight edges (e.g. nothing but blocking synchronisation calls)
     if "error" in impl and impl["error"].startswith("AssertionError") and impl.get("all_zero_weights"):
         return "C08-window-with-only-zero-weight-edges"
